@@ -5,7 +5,8 @@ begline counter reset; also fires on re-entrant calls) + tree walker
 (vf.core.canon.wellformed) + "no state left behind" probe (a fixed probe
 document must parse to its baseline tree after any soup).
 Workloads: G1 token soups, G2 grammar documents, G3 mutated real pages,
-G4 depth stress; each x {plain, pre_expand, expand_all}.
+G4 depth stress; each x {plain, pre_expand, expand_all}; G6 repeated-unit runs on a growth ladder
+(one more shard).
 """
 from __future__ import annotations
 
@@ -21,13 +22,17 @@ from vf.core.canon import wellformed, canon, PLACEHOLDER_RE
 LEVEL = "exploration"
 RULE = ("inputs: G1 token soups (1-60 tokens over every token_list alternative, every allowed HTML tag in 11 spellings, "
         "magic words, URL schemes, include/nowiki/pre/comment tags, bidi/control/placeholder chars), G2 block/inline grammar "
-        "documents, G3 token-boundary mutations and splices of the real pages under tests/, G4 nesting-depth stress 1..100, G5 template/parser-function call shapes (names x argument atoms incl. empty, numeric-named, duplicated numbers); "
+        "documents, G3 token-boundary mutations and splices of the real pages under tests/, G4 nesting-depth stress 1..100, G5 template/parser-function/link call shapes (names x argument atoms incl. empty, numeric-named, duplicated numbers, newlines; bare, in list/table cells and inside complete heading lines); "
+        "G6 'opener + short unit repeated n times (+ wrong/no closer)' families measured on a ladder n=1..40; "
         "each under plain / pre_expand / expand_all with a 12-template library that emits unbalanced markup. "
         "non-trivial = distinct input whose tree has >=3 node kinds or produced >=1 parser debug message (auto-closed node)")
 ASSUMPTIONS = [
     "Lua: ustring/libraryUtil stand-in pages are installed (Scribunto submodule absent) so {{#invoke:}} in soups does not fail for a sandbox-only reason",
     "placeholder clause asserted only for inputs that contain no U+10203D..U+10FFF0 character themselves",
     "per-case CPU budget 90 s (ITIMER_VIRTUAL) stands for 'returns normally'",
+    "G6: a regular expression that backtracks cannot be interrupted, so a family is never run at a large n first: n climbs a "
+    "ladder and the family counts as 'does not return' when the CPU time of the last three steps grows by a factor >= 1.25 per "
+    "repeated unit (re-measured) and the extrapolation to n=40 (<= 160 characters of repeated units) exceeds ten times the budget",
 ]
 WALL = {"quick": 900, "thorough": 5400}
 PROBE = "== H ==\n* a\n** b ''i'' '''b'''\n{|\n|-\n| c || d\n|}\n<div class=\"x\">[[l|t]] {{ta|1}} [http://x y]</div>\n text\n; t : d\n"
@@ -41,7 +46,8 @@ MODES = [{}, {"pre_expand": True}, {"expand_all": True},
 def floors(tier):
     return {"oracle.parse.post": 1000, "oracle.walker": 1000, "counters.gen.G1": 1, "counters.gen.G3": 1,
             "counters.gen.G4": 1, "counters.gen.G2": 1, "counters.gen.G5": 1, "sets.handlers": 20,
-            "counters.reentrant-hook-calls": 200, "oracle.repo-tests.walker": 300}
+            "counters.reentrant-hook-calls": 200, "oracle.repo-tests.walker": 300,
+            "counters.gen.G6": 1, "oracle.run-ladder": 1000, "counters.G6.ladder-steps": 20000}
 
 
 def shards(tier, seed):
@@ -50,6 +56,8 @@ def shards(tier, seed):
     sh = [{"seed": seed * 1000 + i, "n": per, "idx": i, "nsh": n} for i in range(n)]
     # one more workload: the repository's own tests (incl. the Lua-facing ones, with stand-ins) under the same walker
     sh.append({"seed": seed, "kind": "repo-tests"})
+    # and one shard for the repeated-unit families (G6): growth of the parse time along a ladder of repeat counts
+    sh.append({"seed": seed * 1000 + 777, "kind": "runs", "n": {"quick": 2000, "thorough": 40000}[tier]})
     return sh
 
 
@@ -116,7 +124,11 @@ OPENERS = [("{{", "}}"), ("{{{", "}}}"), ("[[", "]]"), ("[", "]"), ("<div>", "</
            ("<i>", "</i>"), ("-{", "}-")]
 
 
-CALL_NAMES = ["t", "ta", "PAGENAME", "#if", "lc", "#invoke", "#switch", "NAMESPACE", " t ", "T:x", "Template:ta", "{{ta}}", "subst:ta",
+# templates of this monitor only (on top of soup.LIBRARY): extension-tag parser function building a tag whose attribute
+# comes from an unset argument, and a <pre> with a computed attribute
+EXTRA_LIBRARY = {"tr": "{{#tag:ref|{{{1}}}|name={{{2}}}}}", "tp": "<pre class=\"{{{1}}}\">{{{2|x}}}</pre>",
+                 "tq": "{{#tag:{{{1|span}}}|c|{{{2|k}}}={{{3}}}}}"}
+CALL_NAMES = ["tr", "tp", "tq", "#tag", "t", "ta", "PAGENAME", "#if", "lc", "#invoke", "#switch", "NAMESPACE", " t ", "T:x", "Template:ta", "{{ta}}", "subst:ta",
               "#expr", ""]
 CALL_ATOMS = ["", "a", " a ", "\na", "a\nb", "k=v", " k = v ", "k=", "=v", "=", "1=x", "2=y", "01=z", "0=w", "1=", "-1=q", "a=b=c", "{{ta}}",
               "{{{1}}}", "[[l|m]]", "<nowiki>|</nowiki>", "x{{!}}y", "1={{ta|2=}}", "²=s", "k k=v", "<b>=v", "''i''"]
@@ -129,9 +141,14 @@ def call_case(rng):
         args = [rng.choice(CALL_ATOMS) if d <= 0 or rng.random() < 0.85 else one(d - 1) for _ in range(rng.randint(0, 5))]
         sep = ":" if name.startswith("#") or rng.random() < 0.1 else "|"
         body = name + (sep + "|".join(args) if args else "")
-        br = rng.choice([("{{", "}}"), ("{{{", "}}}"), ("{{", "}"), ("{", "}}")]) if rng.random() < 0.2 else ("{{", "}}")
+        br = rng.choice([("{{", "}}"), ("{{{", "}}}"), ("{{", "}"), ("{", "}}"), ("[[", "]]"), ("[[File:", "]]")]) if rng.random() < 0.25 else ("{{", "}}")
         return br[0] + body + br[1]
-    return rng.choice(["", "x ", "* ", "{|\n| ", "== "]) + " ".join(one(2) for _ in range(rng.randint(1, 3)))
+    pre = rng.choice(["", "x ", "* ", "{|\n| ", "== ", "== ", "=== "])
+    body = " ".join(one(2) for _ in range(rng.randint(1, 3)))
+    if pre.startswith("=") and rng.random() < 0.7:
+        # the call (whose arguments may contain newlines) inside a complete heading line
+        body += rng.choice([" ", "", " t "]) + pre.strip() + rng.choice(["\n", "\ntext\n", " \n== n ==\n", ""])
+    return pre + body
 
 
 def depth_case(rng):
@@ -153,6 +170,171 @@ def depth_case(rng):
     return s
 
 
+UNMATCHED = []      # heading nodes that were open on the stack when an end token of their kind came and went
+
+
+def install_heading_probe():
+    """Observe subtitle_end_fn (looked up in the module namespace by process_text at call time): which heading nodes
+    with a still open title were on the stack when an end token of their kind arrived and were left without a title."""
+    import wikitextprocessor.parser as P
+    if getattr(P.subtitle_end_fn, "_vf_probe", False):
+        return
+    orig = P.subtitle_end_fn
+
+    def subtitle_end_fn(ctx, token):
+        kind = P.SUBTITLE_TO_KIND.get(token[1:])
+        # (not in <pre> mode: there every end token is text by design -- the "<pre> inside the title" class)
+        open_nodes = ([n for n in ctx.parser_stack if n.kind == kind and n.largs == []]
+                      if kind is not None and not ctx.pre_parse else [])
+        r = orig(ctx, token)
+        for n in open_nodes:
+            if n.largs == [] and len(UNMATCHED) < 1000:
+                UNMATCHED.append(n)
+        return r
+    subtitle_end_fn._vf_probe = True
+    P.subtitle_end_fn = subtitle_end_fn
+
+
+def untitled_headings(root):
+    """Heading nodes without the title argument list, one (rule, msg) per mechanism.
+    'level-args-shape/largs=0/end-token-unmatched': the node was still open on the parser stack when an end token of
+    its kind arrived outside <pre> mode, and the end-token handler did not recognise it (observed at subtitle_end_fn);
+    'level-args-shape/largs=0': every other way (the node was closed by another token inside its title line, or a
+    <pre> opened in the title swallowed the end token)."""
+    from wikitextprocessor.parser import WikiNode, KIND_TO_LEVEL
+    out = {}
+    stack = [root]
+    while stack:
+        n = stack.pop()
+        for lst in [n.children] + list(n.largs):
+            for c in lst:
+                if isinstance(c, WikiNode):
+                    stack.append(c)
+        if n.kind in KIND_TO_LEVEL and n.largs == [] and n.sarg == "":
+            rule = "level-args-shape/largs=0"
+            if any(n is u for u in UNMATCHED):
+                rule += "/end-token-unmatched"
+            out.setdefault(rule, " " + str(n)[:200])
+    return sorted(out.items())
+
+
+class _Sampler:
+    """Samples the innermost repository frame on CPU-time ticks while a parse runs (never raises).  A tick that falls
+    into an uninterruptible C call (a backtracking regular expression) is delivered when the call returns, i.e. in the
+    frame that made the call."""
+
+    def __init__(self, interval=0.02, limit=2 * 90.0):
+        import time
+        self.interval = interval
+        self.hits = {}
+        self.limit = limit
+        self.t0 = time.process_time()
+
+    def _tick(self, signum, frame):
+        import time
+        if time.process_time() - self.t0 > self.limit:
+            raise CpuBudget("G6 step over %.0f CPU s" % self.limit)
+        f = frame
+        while f is not None and "wikitextprocessor" not in f.f_code.co_filename:
+            f = f.f_back
+        if f is None:
+            return
+        import linecache
+        fn = f.f_code.co_filename
+        line = linecache.getline(fn, f.f_lineno)
+        m = re.search(r"([A-Za-z_][A-Za-z_0-9]*)\.(?:sub|subn|finditer|match|search|split|fullmatch|findall)\(", line)
+        ident = m.group(1) if m and m.group(1) != "re" else ""
+        key = "%s.%s%s" % (fn.rsplit("/", 1)[-1][:-3], f.f_code.co_name, ":" + ident if ident else "")
+        self.hits[key] = self.hits.get(key, 0) + 1
+
+    def __enter__(self):
+        import signal
+        self._old = signal.signal(signal.SIGVTALRM, self._tick)
+        signal.setitimer(signal.ITIMER_VIRTUAL, self.interval, self.interval)
+        return self
+
+    def __exit__(self, *a):
+        import signal
+        signal.setitimer(signal.ITIMER_VIRTUAL, 0)
+        signal.signal(signal.SIGVTALRM, self._old)
+
+    def top(self):
+        return max(sorted(self.hits), key=lambda k: self.hits[k]) if self.hits else "?"
+
+
+LADDER = list(range(1, 17)) + [18, 20, 22, 24, 28, 32, 36, 40]
+G6_THRESHOLD = 0.05      # CPU seconds of one parse from which the growth is judged
+G6_BUDGET = 90.0         # the per-case CPU budget that stands for "returns normally"
+
+
+def ladder(mon, fam, mode, confirm=True):
+    """Climb the repeat-count ladder of one family.  Returns (verdict, info): verdict None = every step returned
+    (info['last'] = the largest instance parsed), or a violation (sig, msg)."""
+    import time
+    from vf.gen import soup
+    ctx = mon.ctx
+    kw = mon.kwargs(mode)
+    series = []
+
+    def measure(n):
+        text = soup.run_text(fam, n)
+        ctx.start_page("Pg")
+        smp = _Sampler()
+        # thread_time: the process CPU clock has tick (4 ms) granularity while an interval timer is armed
+        t0 = time.thread_time()
+        with smp:
+            ctx.parse(text, **kw)
+        return time.thread_time() - t0, smp
+
+    def growth(a, b):
+        (n1, t1), (n2, t2) = a, b
+        return (max(t2, 1e-6) / max(t1, 1e-6)) ** (1.0 / (n2 - n1))
+
+    steps = 0
+    for n in LADDER:
+        try:
+            t, smp = measure(n)
+        except RecursionError as e:
+            contracts.drain()
+            return ("raises:" + exc_sig(e), repr(e)[:200]), {"n": n, "steps": steps}
+        except Exception as e:
+            contracts.drain()
+            return ("raises:" + exc_sig(e), repr(e)[:300]), {"n": n, "steps": steps}
+        steps += 1
+        contracts.drain()
+        series.append((n, t))
+        if t < G6_THRESHOLD or len(series) < 3:
+            if t > G6_BUDGET:
+                return ("no-return-within-cpu-budget", "%.0f s for %r" % (t, soup.run_text(fam, n)[:80])), {"n": n, "steps": steps}
+            continue
+        mon.obs.count("G6.growth-judged")
+        g = min(growth(series[-3], series[-2]), growth(series[-2], series[-1]))
+        est = t * g ** (40 - n) if g > 1 else t
+        if g >= 1.25 and est > 10 * G6_BUDGET:
+            where = smp.top()
+            if confirm:
+                # measure the last two steps again: both measurements of each step must show the growth
+                t1b, _ = measure(series[-2][0])
+                t2b, smp2 = measure(n)
+                contracts.drain()
+                g2 = min(g, growth((series[-2][0], max(t1b, series[-2][1])), (n, min(t2b, t))))
+                if smp2.hits:
+                    where = smp2.top()
+                if not (g2 >= 1.25 and min(t2b, t) * g2 ** (40 - n) > 10 * G6_BUDGET):
+                    # not reproduced: no verdict, and no larger n either (a step that cannot be interrupted)
+                    mon.obs.count("G6.growth-not-confirmed")
+                    return None, {"n": series[-2][0], "steps": steps, "tmax": max(x[1] for x in series)}
+                g = g2
+            msg = ("parse time grows x%.2f per repeated unit %r after %r: %s CPU s for n=%s; n=40 (%d characters) extrapolates to "
+                   "%.3g s (budget %d s); time is spent in %s" % (
+                       g, fam["unit"], fam["pre"] + fam["open"], "/".join("%.4f" % x[1] for x in series[-4:]),
+                       "/".join(str(x[0]) for x in series[-4:]), len(soup.run_text(fam, 40)), t * g ** (40 - n), G6_BUDGET, where))
+            return ("no-return/time-exponential-in-repeat-count/" + where, msg), {"n": n, "steps": steps}
+        if t > G6_BUDGET:
+            return ("no-return-within-cpu-budget", "%.0f s for %r" % (t, soup.run_text(fam, n)[:80])), {"n": n, "steps": steps}
+    return None, {"n": LADDER[-1], "steps": steps, "tmax": max(t for _, t in series)}
+
+
 class Monitor:
     def __init__(self, obs):
         from vf.core.wtp import fresh, tmpl
@@ -160,13 +342,14 @@ class Monitor:
         import wikitextprocessor.parser as P
         contracts.install_parse_contract()
         self.obs = obs
-        self.cm = fresh(lua=True, pages=[tmpl(k, v) for k, v in soup.LIBRARY.items()])
+        self.cm = fresh(lua=True, pages=[tmpl(k, v) for k, v in list(soup.LIBRARY.items()) + list(EXTRA_LIBRARY.items())])
         self.ctx = self.cm.__enter__()
         names = [n for n in dir(P) if n.endswith("_fn") and callable(getattr(P, n))]
         self.handler_names = names
         anchors.watch({"parser." + n: getattr(P, n) for n in names})
         anchors.watch({"parser._parser_pop": P._parser_pop, "parser._parser_merge_str_children": P._parser_merge_str_children,
                        "parser.parse_encoded": P.parse_encoded})
+        install_heading_probe()      # after anchors.watch: the anchors count the repository's own function
         self.ctx.start_page("Pg")
         self.base = [canon(self.ctx.parse(PROBE, **self.kwargs(i))) for i in range(len(MODES))]
         contracts.drain()
@@ -204,6 +387,7 @@ class Monitor:
         has_ph = bool(PLACEHOLDER_RE.search(text))
         tag = "/placeholder-char-in-input" if has_ph else ""
         out = []
+        del UNMATCHED[:]
         ctx.start_page("Pg")
         try:
             with cpu_guard(90):
@@ -218,6 +402,10 @@ class Monitor:
             return [("raises:" + exc_sig(e) + tag, repr(e)[:300])], None
         self.obs.check("walker")
         for r, m in wellformed(root, "Pg", check_placeholders=not has_ph, stats=self.stats):
+            if r == "level-args-shape/largs=0":
+                continue        # reported per mechanism below
+            out.append((r + tag, m))
+        for r, m in untitled_headings(root):
             out.append((r + tag, m))
         for name, d in contracts.drain():
             out.append((name + tag, d))
@@ -299,9 +487,48 @@ def run_repo_tests_shard(spec):
     return obs
 
 
+def run_runs_shard(spec):
+    """G6: families 'prefix + opener + unit*n + tail' on the repeat-count ladder; the largest instance that was
+    parsed also goes through the walker / contracts like every other case."""
+    from vf.gen import soup
+    obs = Obs()
+    rng = random.Random(spec["seed"])
+    mon = Monitor(obs)
+    seen = {}
+    for i in range(spec["n"]):
+        fam = soup.run_family(rng)
+        mode = rng.randrange(3)
+        try:
+            verdict, info = ladder(mon, fam, mode, confirm=True)
+        except CpuBudget as e:
+            contracts.drain()
+            verdict, info = ("no-return-within-cpu-budget", str(e)[-600:]), {"n": 1, "steps": 0}
+        obs.check("run-ladder")
+        obs.count("G6.ladder-steps", info["steps"])
+        obs.maxi("G6.max-step-cpu-seconds", info.get("tmax", 0))
+        if verdict is not None:
+            sig, msg = verdict
+            seen[sig] = seen.get(sig, 0) + 1
+            obs.case("G6:" + repr(fam) + "#%d" % mode, nontrivial=True, sample={"gen": "G6", "fam": fam, "mode": MODES[mode]})
+            obs.count("gen.G6")
+            obs.violation(sig, msg, {"gen": "G6", "fam": fam, "mode": mode, "text": soup.run_text(fam, info["n"])})
+            continue
+        run_case(mon, obs, soup.run_text(fam, info["n"]), mode, "G6")
+        if i % 25 == 0:
+            for sig, msg in mon.probe_state(mode):
+                obs.violation(sig, msg, {"text": soup.run_text(fam, info["n"]), "mode": mode, "gen": "G6", "then": "probe"})
+    mon.close()
+    obs.anchors.update(anchors.snapshot())
+    for k, v in contracts.EVALS.items():
+        obs.check(k, v)
+    return obs
+
+
 def run_shard(spec):
     if spec.get("kind") == "repo-tests":
         return run_repo_tests_shard(spec)
+    if spec.get("kind") == "runs":
+        return run_runs_shard(spec)
     from vf.gen import soup, docs
     obs = Obs()
     rng = random.Random(spec["seed"])
@@ -357,6 +584,10 @@ def run_shard(spec):
 def replay(case):
     obs = Obs()
     mon = Monitor(obs)
+    if case.get("gen") == "G6" and "fam" in case:
+        verdict, info = ladder(mon, case["fam"], case["mode"])
+        mon.close()
+        return {"violations": [verdict] if verdict else [], "ladder": info}
     probs, root = mon.problems(case["text"], case["mode"])
     if case.get("then") == "probe":
         probs = list(probs) + mon.probe_state(case["mode"])
